@@ -1,6 +1,6 @@
 //! Driver: replay tier, worker subprocesses, aggregation, evidence, verdict.
 
-use super::ctx::{install_panic_hook, Ctx, FoundViolation, ShardResult, Tier};
+use super::ctx::{install_panic_hook, Ctx, FoundViolation, ShardResult, Tier, Violation};
 use super::known::KnownFindings;
 use crate::props;
 use serde_json::{json, Value};
@@ -68,6 +68,9 @@ pub fn worker_main(args: &[String]) -> i32 {
             if let Some((t0, case)) = &*g {
                 if t0.elapsed() > limit {
                     let _ = std::fs::write(out.with_extension("hang.json"), case);
+                    if let Some(bytes) = super::ctx::partial_result_slot().lock().ok().and_then(|g| g.clone()) {
+                        let _ = std::fs::write(&out, bytes);
+                    }
                     std::process::exit(3);
                 }
             }
@@ -109,6 +112,18 @@ pub fn replay_main(args: &[String]) -> i32 {
     let known = KnownFindings::load(&verif_root().join("known_findings.json"));
     let mut ctx = Ctx::new(&prop, profile_name(), Tier::Quick, 0, 0, 1, known);
     ctx.strict = strict;
+    // a replay that does not return is reported as such (C19 termination); everything else about a
+    // slow replay is the caller's business
+    {
+        let limit = Duration::from_secs(std::env::var("DVCHECK_REPLAY_TIMEOUT_S").ok().and_then(|s| s.parse().ok()).unwrap_or(300));
+        let prop = prop.clone();
+        std::thread::spawn(move || {
+            std::thread::sleep(limit);
+            let v = crate::driver::ctx::Violation::new(&prop, "no_return", "call", format!("the replayed case did not return within {} s in a process of its own", limit.as_secs())).fact("profile", profile_name());
+            println!("REPRODUCED {}", serde_json::to_string(&v).unwrap());
+            std::process::exit(if prop == "C19" { 1 } else { 2 });
+        });
+    }
     let r = props::replay(&prop, &label, &v["case"], &mut ctx);
     if !ctx.res.harness_errors.is_empty() {
         eprintln!("harness error: {:?}", ctx.res.harness_errors);
@@ -171,6 +186,7 @@ pub fn run_main(args: &[String]) -> i32 {
     let mut exit_code = 0;
     let mut inconclusive: Vec<String> = Vec::new();
     let mut violation_lines: Vec<String> = Vec::new();
+    let mut hang_violation_reported = false;
     let mut known_reproduced = 0usize;
     let mut replays_run = 0usize;
 
@@ -292,12 +308,44 @@ pub fn run_main(args: &[String]) -> i32 {
             },
             Some(st) => {
                 let hang = out.with_extension("hang.json");
+                if st.code() == Some(3) {
+                    // results of the labels completed before the case that never returned
+                    if let Some(r) = std::fs::read(&out).ok().and_then(|b| serde_json::from_slice::<ShardResult>(&b).ok()) {
+                        results.push(r);
+                    }
+                }
                 if st.code() == Some(3) && hang.exists() {
                     let keep = root.join("replays").join(&prop);
                     let _ = std::fs::create_dir_all(&keep);
                     let dst = keep.join(format!("hang-{pname}-{shard}.json"));
-                    let _ = std::fs::copy(&hang, &dst);
-                    inconclusive.push(format!("worker {pname}/{shard}: a case exceeded the wall-clock watchdog (case saved to {})", dst.display()));
+                    // wrap into a replay file
+                    let doc: Value = std::fs::read_to_string(&hang).ok().and_then(|t| serde_json::from_str(&t).ok()).unwrap_or(Value::Null);
+                    let replay_doc = json!({"property": prop, "label": doc["label"], "case": doc["case"], "profile": pname, "seed": seed, "tier": tier.name(), "expect": "violation",
+                        "violation": {"property": prop, "kind": "no_return", "site": "call", "facts": {"profile": pname}, "message": "a generated case exceeded the per-case wall-clock watchdog"}});
+                    let _ = std::fs::write(&dst, serde_json::to_vec_pretty(&replay_doc).unwrap_or_default());
+                    if prop == "C19" && hang_violation_reported {
+                        println!("  (another generated case exceeded the watchdog: {})", dst.display());
+                    } else if prop == "C19" {
+                        // termination is what C19 claims: confirm in a process of its own (nothing else
+                        // running in it, 300 s = many orders of magnitude above the median case)
+                        let o = run_replay(&bin_for(&pname), &dst, false);
+                        match (o.code, &o.violation) {
+                            (1, Some(v)) if v["kind"] == "no_return" => {
+                                let viol: Violation = serde_json::from_value(v.clone()).unwrap_or_else(|_| Violation::new(&prop, "no_return", "call", "no return"));
+                                if let Some(id) = known.matches(&viol) {
+                                    println!("KNOWN-FINDING: property={} {} [{}; generated case {}]", prop, known.findings.iter().find(|f| f.id == id).map(|f| f.what.clone()).unwrap_or_default(), id, dst.display());
+                                } else {
+                                    println!("  -> {}/no_return/call [{pname}] a generated case did not return within the watchdog, nor within 300 s when replayed alone", prop);
+                                    violation_lines.push(format!("VIOLATION property={} replay={}", prop, dst.display()));
+                                    hang_violation_reported = true;
+                                }
+                            }
+                            (1, Some(_)) => violation_lines.push(format!("VIOLATION property={} replay={}", prop, dst.display())),
+                            _ => inconclusive.push(format!("worker {pname}/{shard}: a case exceeded the wall-clock watchdog but returns when replayed alone (case saved to {})", dst.display())),
+                        }
+                    } else {
+                        inconclusive.push(format!("worker {pname}/{shard}: a case exceeded the wall-clock watchdog (case saved to {})", dst.display()));
+                    }
                 } else {
                     let tail = std::fs::read_to_string(out.with_extension("stderr")).unwrap_or_default();
                     let tail: Vec<&str> = tail.lines().filter(|l| !l.starts_with("proptest:")).rev().take(6).collect();
